@@ -35,7 +35,8 @@ CHECKS = {
             'Every value of the universe (all strings <= 3 over a 10-character alphabet incl. quotes/newlines/brackets, '
             'extreme numbers, characters, symbols, all lists <= 3 nested to depth 3, dictionaries) is injected as a '
             'Python/NumPy object, written with the real .w, read back with .rs and .r, compared in canonical form and '
-            're-written; Form inverts Format for atoms.',
+            're-written; Form inverts Format for atoms. Values holding dictionaries are read a second time from the same '
+            'text after every dictionary of the first reading was updated in place (what a text reads as depends on the text alone).',
             'Exhaustive over the stated universe only; -0.0, nan, inf excluded; numeric-block promotion.',
             'DESIGN.md §3 C11'),
     'C10': ('E1-bfs', 'model_checking',
@@ -49,12 +50,17 @@ CHECKS = {
             'DESIGN.md §3 C10'),
     'C13': ('E3-vloop', 'model_checking',
             'exhaustive enumeration of stream fragmentations on a virtual loop (real StreamReader / stream_recv_msg / '
-            '_listen) + explicit-state BFS of remote-operation histories against a live server vs. a twin interpreter',
+            '_listen) + deviation-bounded enumeration of drain() answers for concurrent senders on one connection (real '
+            'stream_send_msg on a virtual loop) + explicit-state BFS of remote-operation histories against a live server vs. a '
+            'twin interpreter',
             'Framing: every split of 1-3 consecutive frames into <= 3 reads (all pairs of cut positions) is consumed by '
             'the real receive path; messages must come out intact, in order, each resolving its own future. Live: every '
             'value of the transportable universe x every remote form (text, symbol call of arity 0-3, proxy, remote '
             'dictionary get/set, :undefined, errors) and BFS over histories on two server-side names are executed '
-            'against a real server on loopback and compared with the same operation on a twin interpreter.',
+            'against a real server on loopback and compared with the same operation on a twin interpreter. Send side: 2-3 '
+            'concurrent senders x payload classes (small, > 64 KiB, several times that) x every sequence of drain() answers '
+            '(returns / suspends 1 / suspends 3 loop iterations) with <= 2 (quick) / 3 (thorough) suspensions; the bytes written '
+            'to the connection, read back by the real stream_recv_msg, are exactly the sent messages.',
             'The live part uses real sockets/loops with sequential operations (exhaustive over values and histories, '
             'not schedules; schedules of the client are C14). Values outside the universe are not covered.',
             'DESIGN.md §3 C13'),
@@ -66,8 +72,8 @@ CHECKS = {
             'preemption (quick; thorough: 2 for the small scripts) are executed on the real client; part of them '
             'additionally at source-line granularity inside call/_listen/_run/_cleanup_pending_responses. Every '
             'caller must return its own response or raise; a deadlock verdict is a hang. Server side: every sequence '
-            'of <= 2 (quick) / 3 (thorough) requests over 10 request kinds (succeeding and failing evaluations, calls, '
-            'dictionary gets/sets) x 5 delivery patterns on the real handle_client/_listen/execute_server_command with '
+            'of <= 2 (quick) / 3 (thorough) requests over 11 request kinds (succeeding and failing evaluations, calls, '
+            'dictionary gets/sets, a complete frame whose body cannot be unpickled) x 5 delivery patterns on the real handle_client/_listen/execute_server_command with '
             'two virtual loops: each request is answered with the twin interpreter\'s value or the connection ends, '
             'never silence on an open connection.',
             'Switches only at handle boundaries, result()/Event.wait, server actions (and source lines in line-level '
